@@ -31,6 +31,7 @@ from funsor.terms import Slice, Cat, Binary, Reduce, Subs, Funsor
 from funsor.cnf import Contraction
 from funsor.interpretations import reflect
 from funsor.adjoint import forward_backward, AdjointTape
+from funsor.interpreter import stack_reinterpret
 from funsor.optimizer import apply_optimizer
 
 NGLOB = 4
@@ -212,7 +213,15 @@ def build_funsor(case):
             return Tensor(np.array(ix[2][:sz[ix[1]]]), OrderedDict([(vname(ix[1]), Bint[sz[ix[1]]])]), lsize)
         raise ValueError(t)
 
+    lazy_of = {}
+
     def go(e):
+        out = go1(e)
+        if not (e[0] == "acc" and not e[2]):
+            lazy_of[sx(expr_wire(e, case["leaves"]))] = out
+        return out
+
+    def go1(e):
         t = e[0]
         if t == "acc":
             x = leaves[e[1]]
@@ -237,6 +246,7 @@ def build_funsor(case):
 
     with reflect:
         expr = go(case["expr"])
+    build_funsor.lazy_of = lazy_of          # side channel for the DAG-trace comparison
     return expr, leaves, sum_op, prod_op
 
 
@@ -248,6 +258,7 @@ def run_impl(case):
     except (AssertionError, ValueError, NotImplementedError, KeyError, TypeError) as e:
         return dict(status="declined", why="build:" + type(e).__name__)
     opt = case.get("opt")
+    tape_kinds = None
     try:
         with np.errstate(all="ignore"):
             if opt == "tape":
@@ -262,11 +273,16 @@ def run_impl(case):
                 fwd, bwd = forward_backward(sum_op, prod_op, expr)
                 used = expr
             else:
-                fwd, bwd = forward_backward(sum_op, prod_op, expr)
+                # forward_backward, spelled out to see the tape: entries in recording order
+                with AdjointTape() as tape:
+                    fwd = stack_reinterpret(expr)
+                tape_kinds = [fn.__name__ for _, fn, _ in tape.tape]
+                bwd = tape.adjoint(sum_op, prod_op, fwd)
                 used = expr
     except (AssertionError, ValueError, NotImplementedError, KeyError, TypeError, IndexError) as e:
         return dict(status="declined", why=type(e).__name__)
-    return dict(status="value", fwd=fwd, bwd=bwd, used=used, leaves=leaves, sum_op=sum_op, prod_op=prod_op)
+    return dict(status="value", fwd=fwd, bwd=bwd, used=used, leaves=leaves, sum_op=sum_op, prod_op=prod_op,
+                tape_kinds=tape_kinds, lazy_of=getattr(build_funsor, "lazy_of", {}))
 
 
 def collect_tensors(f, acc):
@@ -1022,13 +1038,17 @@ def check_case(ctx, case, use_driver=True, gate=True, label="clean"):
         if not ans.startswith("ok "):
             ctx.infra_errors.append(f"driver answered {ans!r} for {case_wire(case2)[:400]}")
             return dict(status="infra")
-        mF, mfwd, mleaves = parse_sx(ans[3:])
+        mF, mfwd, mleaves, mtrace = parse_sx(ans[3:])
         model = {}
         if [int(x) for x in mF] != F or [atom_to_num(x) for x in mfwd] != [fwd[k] for k in fwd]:
             ctx.infra_errors.append(f"Lean eval disagrees with the Python oracle on {case_wire(case2)[:400]}")
             return dict(status="infra")
         for lf in mleaves:
-            _, lid, gv, gtab, fs, dv, ts = lf
+            _, lid, gv, gtab, fs, dv, ts, ds = lf
+            if not all(same_num(a_, b_) for a_, b_ in zip([atom_to_num(x) for x in ds], [atom_to_num(x) for x in fs])):
+                # run-time echo of dag_eq_tree_unfolding: DAG sweep (shared nodes accumulate) = tree sweep
+                ctx.infra_errors.append(f"Lean DAG sweep disagrees with tree-shaped backward on {case_wire(case2)[:400]}")
+                return dict(status="infra")
             model[int(lid)] = dict(gv=[int(x) for x in gv], gtab=[atom_to_num(x) for x in gtab],
                                    fs=[atom_to_num(x) for x in fs], dv=[atom_to_num(x) for x in dv],
                                    ts=[atom_to_num(x) for x in ts])
@@ -1038,6 +1058,13 @@ def check_case(ctx, case, use_driver=True, gate=True, label="clean"):
                 ctx.infra_errors.append(f"Lean tape sweep disagrees with tree-shaped backward on {case_wire(case2)[:400]}")
                 return dict(status="infra")
             ctx.count(f"{label}:lean-tape-sweep-eq-tree")
+    if use_driver and not case.get("opt") and r.get("tape_kinds") is not None:
+        bad = compare_trace(ctx, case, r, mtrace, F, sz, sr, tol, label)
+        if bad is not None:
+            if gate:
+                ctx.fail("input", "C11.dag-trace", witness=dict(case=jsonable(case), node=bad["node"]),
+                         expected=str(bad["want"]), got=str(bad["got"]))
+            return dict(status="wrong", what="dag-trace")
     # 4. adjoints
     worst = None
     for lid, key in keys.items():
@@ -1098,6 +1125,73 @@ def check_case(ctx, case, use_driver=True, gate=True, label="clean"):
                      python=py_snippet(case, worst["lid"], worst["idx"], worst["want"]))
         return worst
     return dict(status="ok", nleaves=len(keys), F=F)
+
+
+def wire_nodes(w, acc):
+    """Distinct non-leaf sub-terms of a wire expression, children first — the recording order of the DAG
+    model (Tape.nodes / Dag.ofExpr)."""
+    t = w[0]
+    key = sx(w)
+    if t == "acc":
+        if w[2] and key not in acc:
+            acc.append(key)
+        return acc
+    if t in ("add", "mul"):
+        wire_nodes(w[1], acc)
+        wire_nodes(w[2], acc)
+    elif t in ("sum", "prod"):
+        wire_nodes(w[2], acc)
+    if key not in acc:
+        acc.append(key)
+    return acc
+
+
+KIND = {"acc": "Subs", "add": "Binary", "mul": "Binary", "sum": "Reduce", "prod": "Reduce", "cat": "Cat"}
+
+
+def compare_trace(ctx, case, r, mtrace, F, sz, sr, tol, label):
+    """The DAG model's trace against the real tape: how many entries of which kind are recorded (a shared
+    sub-term once), the order of pops, and the adjoint accumulated at every node when it is popped
+    (funsor: `bwd[lazy node]`).  Returns a description of the first wrong accumulated value, or None."""
+    order = wire_nodes(expr_wire(case["expr"], case["leaves"]), [])
+    lazy_of = r["lazy_of"]
+    mine = [k for k in order if k in lazy_of]            # the inner binders of a nested multi-variable reduce
+    kinds_model = [KIND[parse_sx(k)[0]] for k in mine]   # have no tape entry of their own
+    ctx.count(f"{label}:dag:nodes:{min(len(mine), 8)}")
+    occ = {}
+    def count_occ(w):
+        occ[sx(w)] = occ.get(sx(w), 0) + 1
+        if w[0] in ("add", "mul"):
+            count_occ(w[1]); count_occ(w[2])
+        elif w[0] in ("sum", "prod"):
+            count_occ(w[2])
+    count_occ(expr_wire(case["expr"], case["leaves"]))
+    shared = [k for k in mine if occ.get(k, 0) > 1]
+    ctx.count(f"{label}:dag:shared-nodes:{min(len(shared), 3)}")
+    ctx.count(f"{label}:dag:entry-count-" + ("same" if sorted(kinds_model) == sorted(r["tape_kinds"]) else "differ"))
+    ctx.count(f"{label}:dag:pop-order-" + ("same" if kinds_model == list(r["tape_kinds"]) else "differ"))
+    for item in mtrace:
+        pos, vars_, tab = int(item[0]), [int(v) for v in item[1]], [atom_to_num(x) for x in item[2]]
+        key = order[pos] if pos < len(order) else None
+        lz = lazy_of.get(key)
+        if lz is None:
+            continue
+        if lz not in r["bwd"]:
+            ctx.count(f"{label}:dag:node-adjoint-not-reported")
+            continue
+        try:
+            t = lin_table(r["bwd"][lz], [(v, sz[v]) for v in vars_], sr)
+        except (KeyError, ValueError):
+            ctx.count(f"{label}:dag:node-adjoint-other-inputs")
+            continue
+        if t is None:
+            continue
+        got = [exact(x) for x in np.asarray(t).reshape(-1)]
+        if len(got) != len(tab) or not all(same_num(g, w, tol) for g, w in zip(got, tab)):
+            ctx.count(f"{label}:dag:accumulated-differ" + (":shared" if key in shared else ""))
+            return dict(node=key, want=tab, got=got)
+        ctx.count(f"{label}:dag:accumulated-same" + (":shared" if key in shared else ""))
+    return None
 
 
 def shape_key(case):
@@ -1486,6 +1580,7 @@ def correspond(ctx):
     roundtrip_stream(ctx, m)
     ctx.assumptions.append("float64 arithmetic on small integers / dyadic rationals is exact; the log semiring, and (add,mul) terms containing a product-reduce (safediv = multiplication by a rounded reciprocal), are compared in linear space with rtol 1e-9; magnitudes beyond 2**50 with rtol 1e-12")
     ctx.assumptions.append("with apply_optimizer the leaves are the tensors of the optimizer's output (its unfold pass evaluates Subs(Tensor) eagerly, outside the tape); the output is re-read into the model's syntax modulo __BOUND suffixes exactly as AdjointTape.adjoint un-mangles names")
+    ctx.assumptions.append("dag_adjoint_sound: the sweep over the DAG tape (argument indices, shared nodes accumulate before they are popped) returns the derivative of the unfolded root; the driver's DAG is the hash-consing of the term (structurally equal sub-terms = one node); tie to the real tape: number/kind of recorded entries and pop order (counted), and the adjoint accumulated at every node when popped = funsor's adjoint of that lazy node (gated, incl. shared nodes); un-mangling and the eager-value keys of the real tape are exercised by correspondence only")
     ctx.assumptions.append("adjoint_sound covers every node kind of the model (direct / Subs / Cat leaves, ⊕, ⊗, sum- and product-reduce); the proved sweep is tree-shaped — the tape's DAG sharing and its keying of adjoint_values by un-mangled eager values are exercised by correspondence only (aliasing block; dedicated streams tape-key-collision, binder-free-clash, opt-rebinding)")
     ctx.assumptions.append("clean-stream side conditions beyond Lean's `Good` (implementation-specific, each with its dedicated stream or owner): Cat with part_name == name, with the optimizer every variable bound once and no repeated identical Reduce (KF-shared-binder-unfold), no pure renaming onto a surviving axis of the same leaf (KF-adjoint-scatter-number-shortcut), no root input used as a substitution value (funsor's renaming convention, test_adjoint_subs_tensor_rename)")
     ctx.assumptions.append("root inputs (free variables) are treated as batch variables: the returned adjoint is compared after summing it over the root inputs the leaf lacks")
